@@ -145,6 +145,34 @@ def run(ctx):
         reqs.append(('parse_contents_lines', [not header, lines]))
         impl_vals[len(reqs) - 1] = wrong
     st['rows_histogram'] = hist
+    # tables beyond 1 MiB in which a row ends exactly before every multiple of 4096 characters (so before every
+    # multiple of 64 KiB and 1 MiB): plain and gzip, with and without header
+    from harness.gen import texts as GT
+    for header in (False, True):
+        body = GT.aligned_text(rng, 2200000, 'line-start', gaps=False, head='FILE   LOCATION\n' if header else '',
+                               unit=lambda i: ['usr/share/doc/f%d     utils/pkg%d' % (i, i % 7), 'usr/bin/g %d  admin/tool%d,net/x%d' % (i, i % 5, i % 3)])
+        rows = []
+        for L in body.split('\n')[(1 if header else 0):]:
+            if L:
+                left, _, right = L.rpartition(' ')
+                rows.append((left.strip(), [('', n.rpartition('/')[2]) for n in right.split(',')]))
+        pp, pg = files.write(body, False), files.write(body, True)
+        try:
+            rp = call(lambda: to_lists(contents.parse_contents(pp, has_header=header)))
+            rg = call(lambda: to_lists(contents.parse_contents(pg, has_header=header)))
+        finally:
+            os.unlink(pp)
+            os.unlink(pg)
+        st['cases'] += 1
+        bp, bk = expected(rows)
+        want = [[[k, v] for k, v in bp.items()], [[k, v] for k, v in bk.items()]]
+        if rp != want or rg != want:
+            st['prop_failures'] += 1
+            which = 'plain' if rp != want else 'gzip'
+            got = rp if rp != want else rg
+            diff = next((a for a, b in zip(got[0], want[0]) if a != b), None) if not isinstance(got, Exn) else got
+            fails.append(((body, header), 'a table of %d rows (%d characters) read from a %s file differs from the table, first at %s'
+                          % (len(rows), len(body), which, repr(diff)[:300])))
     # malformed / odd lines for the correspondence only
     for i in range(ctx.n(800, 10000)):
         lines = []
